@@ -191,3 +191,76 @@ def normalise_function(fn):
     _link(new)
     new._parent = getattr(fn, "_parent", None)
     return new
+
+
+def inline_helpers(fn, methods, max_stmts=8):
+    """Clone of `fn` in which calls `self.h(a, ...)` of small straight-line same-class helpers (assignments / expression statements
+    followed by one final `return E`, no control flow) are replaced by the helper's body: its statements, parameters substituted
+    and locals suffixed, are inserted before the calling statement and the call becomes E.  Only calls sitting in simple statements
+    (expression, assignment, augmented assignment, return) of a statement list are expanded, one level deep."""
+    new = clone(fn)
+    _link(new)
+    new._parent = getattr(fn, "_parent", None)
+    counter = [0]
+
+    def helper_ok(h):
+        body = [s for s in h.body if not (isinstance(s, ast.Expr) and isinstance(s.value, ast.Constant))]
+        if not body or len(body) > max_stmts or not isinstance(body[-1], ast.Return) or body[-1].value is None:
+            return None
+        for s in body[:-1]:
+            if not isinstance(s, (ast.Assign, ast.Expr, ast.AugAssign)):
+                return None
+        if any(isinstance(x, (ast.Yield, ast.YieldFrom, ast.Lambda)) for s in body for x in ast.walk(s)):
+            return None
+        if h.args.vararg or h.args.kwarg or h.args.kwonlyargs:
+            return None
+        return body
+
+    def expand_block(stmts):
+        out = []
+        for st in stmts:
+            for fld in ("body", "orelse", "finalbody"):
+                b = getattr(st, fld, None)
+                if isinstance(b, list) and b and isinstance(b[0], ast.stmt):
+                    setattr(st, fld, expand_block(b))
+            for h in getattr(st, "handlers", []) or []:
+                h.body = expand_block(h.body)
+            if isinstance(st, (ast.Expr, ast.Assign, ast.AugAssign, ast.Return)):
+                calls = [c for c in ast.walk(st) if isinstance(c, ast.Call) and isinstance(c.func, ast.Attribute) and isinstance(c.func.value, ast.Name)
+                         and c.func.value.id == "self" and c.func.attr in methods and methods[c.func.attr] is not fn and not c.keywords
+                         and not any(isinstance(a, ast.Starred) for a in c.args)]
+                for c in calls[:1]:
+                    h = methods[c.func.attr]
+                    body = helper_ok(h)
+                    params = [a.arg for a in h.args.args[1:]]
+                    if body is None or len(c.args) != len(params):
+                        continue
+                    counter[0] += 1
+                    suf = "_h%d" % counter[0]
+                    hlocals = set(n.id for s in body for n in ast.walk(s) if isinstance(n, ast.Name) and isinstance(n.ctx, ast.Store))
+                    sub = dict(zip(params, c.args))
+
+                    class S(ast.NodeTransformer):
+                        def visit_Name(self, n):
+                            if n.id in sub and isinstance(n.ctx, ast.Load):
+                                return clone(sub[n.id])
+                            if n.id in hlocals:
+                                return ast.copy_location(ast.Name(id=n.id + suf, ctx=n.ctx), n)
+                            return n
+                    pre = [ast.copy_location(S().visit(clone(s)), st) for s in body[:-1]]
+                    ret = S().visit(clone(body[-1].value))
+
+                    class R(ast.NodeTransformer):
+                        def visit_Call(self, n):
+                            if n is c:
+                                return ast.copy_location(ret, n)
+                            return self.generic_visit(n)
+                    st = R().visit(st)
+                    out.extend(pre)
+            out.append(st)
+        return out
+    new.body = expand_block(new.body)
+    ast.fix_missing_locations(new)
+    _link(new)
+    new._parent = getattr(fn, "_parent", None)
+    return new
